@@ -201,8 +201,8 @@ func checkOnce(c Case, warmThenChange bool) (kind, what string, classes []string
 	// orbit content: each pixel is the transform of its left (orbit-h) or upper (orbit-v) neighbour, the natural
 	// adversarial content for in-place use and for shortcuts that compare neighbouring pixels
 	if c.Src.Fill == "orbit-h" || c.Src.Fill == "orbit-v" {
-		for _, b := range []img.Built{src, srcCopy, model} {
-			if !c.InPlace && b.Img == model.Img {
+		for bi, b := range []img.Built{src, srcCopy, model} {
+			if !c.InPlace && bi == 2 { // the model of a separate destination keeps its own content
 				continue
 			}
 			m, ok := b.Img.(draw.Image)
@@ -477,7 +477,7 @@ func TestC10(t *testing.T) {
 			}
 			st := append([]string{"RGBA64", "NRGBA", "RGBA", "NRGBA64"}, img.Types...)[next(4+len(img.Types))]
 			// more pixels than a type has values, with the extreme values present (ff) or spread (ramp, prng)
-			s := img.Spec{Type: st, Ratio: next(6), Rect: [4]int{1, 2, 1 + w, 2 + h}, Parent: [4]int{1, 2, 1 + w, 2 + h}, Fill: []string{"prng", "prng", "ff", "ramp", "rowbands", "flatrows", "flatcols"}[next(7)], Seed: uint64(i) + ev.Seed(), PalN: 256}
+			s := img.Spec{Type: st, Ratio: next(6), Rect: [4]int{1, 2, 1 + w, 2 + h}, Parent: [4]int{1, 2, 1 + w, 2 + h}, Fill: []string{"prng", "prng", "ff", "ramp", "rowbands", "flatrows", "flatcols", "rowpairs"}[next(8)], Seed: uint64(i) + ev.Seed(), PalN: 256}
 			d := img.Spec{Type: dstTypes[next(4)], Rect: [4]int{-2, 3, -2 + w, 3 + h}, Parent: [4]int{-2, 3, -2 + w, 3 + h}, Fill: "ramp", Seed: 3}
 			c := Case{Src: s, Dst: d, Par: par, Transform: Transforms[next(len(Transforms))]}
 			if i%6 == 5 && (st == "RGBA64" || st == "NRGBA" || st == "RGBA" || st == "NRGBA64") {
